@@ -47,6 +47,7 @@ def serial_family(v):
 
 
 def family(op):
+    if op == 'ConcLoad': return 'C12'
     if op in ('ItNew', 'ItTake', 'ItPeek', 'ItAdvance', 'IterCb', 'Ranges'): return 'C04'
     if op in ALG: return 'C01'
     if op in MUT: return 'C02'
@@ -91,6 +92,8 @@ def attribute32(v):
             return 'C12'
         if op in ('ParOr', 'ParAnd', 'ParHeapOr'):
             return 'C11+C12'
+        if op == 'ConcLoad':
+            return 'C12'
         return family(op)
     if c == 'interference':
         if op in QRY or op in NBR:
@@ -405,6 +408,7 @@ def c12(tier):
         'phases': [
             {'kind': 'replay', 'model': ms[0], 'kinds': ['chunks'], 'sample': 1.0, 'shards': 4},
             {'kind': 'drive', 'profile': 'parallel', 'traces': 64 if q else 800, 'steps': 40, 'shards': 8, 'gomaxprocs': [1, 2, 4, 16]},
+            {'kind': 'drive', 'profile': 'parallel', 'traces': 48 if q else 600, 'steps': 30, 'shards': 8, 'gomaxprocs': [1, 2, 4, 16], 'extra': ['-spread', '300']},
         ],
     }
 
